@@ -16,6 +16,17 @@ META = {
 
 THEOREMS = [
     "Qentem.Props.C18.groupBy_source_unchanged",
+    "Qentem.Props.C18.groupBy_eq_spec",
+    "Qentem.Props.C18.groupBy_empty",
+    "Qentem.Props.C18.groupOf_groupInsert",
+    "Qentem.Props.C18.group_members",
+    "Qentem.Props.C18.total_groupInsert",
+    "Qentem.Props.C18.groupBy_partition",
+    "Qentem.Props.C18.names_groupInsert",
+    "Qentem.Props.C18.group_names_first_appearance",
+    "Qentem.Value.groupScan_spec",
+    "Qentem.Value.groupLoop_spec",
+    "Qentem.Value.groupAdd_view",
 ]
 
 GKEYS = [[107], [], [97, 98], [121]]
